@@ -125,6 +125,25 @@ def _plain_operand(e):
     return isinstance(e, ast.Name)
 
 
+def flatten_filter_generator(n):
+    """for k in [j for j in X if c(j)]  ==  for k in X if c(k)   (the inner comprehension only filters; its test has no call, so when it runs cannot matter)"""
+    it = n.iter
+    if isinstance(it, (ast.ListComp, ast.GeneratorExp)) and len(it.generators) == 1 and isinstance(it.elt, ast.Name) and isinstance(it.generators[0].target, ast.Name) \
+            and it.elt.id == it.generators[0].target.id and isinstance(n.target, ast.Name) and not it.generators[0].is_async \
+            and not any(isinstance(m, (ast.Call, ast.Lambda, ast.ListComp, ast.SetComp, ast.DictComp, ast.GeneratorExp, ast.NamedExpr, ast.Await)) for c in it.generators[0].ifs for m in ast.walk(c)):
+        inner_var, outer_var = it.generators[0].target.id, n.target.id
+        ifs = copy.deepcopy(it.generators[0].ifs)
+        clash = any(isinstance(m, ast.Name) and m.id == outer_var for c in ifs for m in ast.walk(c)) and inner_var != outer_var
+        if not clash:
+            for c in ifs:
+                for m in ast.walk(c):
+                    if isinstance(m, ast.Name) and m.id == inner_var:
+                        m.id = outer_var
+            n.iter = it.generators[0].iter
+            n.ifs = ifs + list(n.ifs)
+    return n
+
+
 def canon(e, sort_comm=True):
     """canonical copy of an expression: a>b -> b<a, a>=b -> b<=a, `not` pushed in, commutative comparisons sorted,
     `len(x) == 0`/`not len(x)`/`not x` left distinct (rules name the forms they accept)."""
@@ -140,6 +159,10 @@ def canon(e, sort_comm=True):
             if isinstance(n.op, ast.USub) and isinstance(n.operand, ast.Constant) and isinstance(n.operand.value, (int, float)):
                 return ast.Constant(-n.operand.value)
             return n
+
+        def visit_comprehension(self, n):
+            self.generic_visit(n)
+            return flatten_filter_generator(n)
 
         def visit_DictComp(self, n):
             self.generic_visit(n)
